@@ -1,5 +1,6 @@
 import Syzgy.Lemmas.Scan
 import Syzgy.Lemmas.Refine
+import Syzgy.Lemmas.Coll
 /-!
 # C01 — document store fidelity (property theorems only; helper lemmas live in `Lemmas/`)
 -/
@@ -59,6 +60,38 @@ theorem new_file_is_rep :
     ∃ s0, openFile none .createIfNotExists = .ok s0 ∧ Rep s0 [.act 0 [] [] 0] ∧
       ∀ r, docOf r [.act 0 [] [] 0] = if r = [] then some [] else none :=
   init_refines
+
+/-- **The collection refines a finite map from document ids to documents, for every operation sequence.**
+    From any collection state that satisfies the collection invariant `CRep` (span-file invariant + the
+    record under the decimal rendering of each id is exactly that document's metadata bytes and packed
+    codes), any sequence of `AddDocument` (fresh id or overwrite), `UpdateDocument`, `removeDocument`
+    leaves a state that satisfies `CRep` for the fold of the specification: an add binds the id to
+    exactly the document given, an update replaces the metadata and keeps the stored vector, a removal
+    unbinds the id, operations on absent ids are refused and change nothing, no other document is
+    touched. -/
+theorem documents_refine (ops : List DocOp) (c : Coll) (segs : List Seg) (docs : DocStore) (h : CRep c segs docs)
+    (hf : DocFitsAll c docs ops) :
+    ∃ segs', CRep (ops.foldl applyDocOp c) segs' (ops.foldl docSpec docs) :=
+  doc_run_refines ops c segs docs h hf
+
+/-- `GetDocument` in any reachable state returns the document of the specification — the metadata
+    byte-for-byte and every vector component as its stored quantization code — or "record not found" -/
+theorem get_document_is_spec (ops : List DocOp) (c : Coll) (segs : List Seg) (docs : DocStore) (h : CRep c segs docs)
+    (hf : DocFitsAll c docs ops) (id : Nat) :
+    getDocument (ops.foldl applyDocOp c) id = match ops.foldl docSpec docs id with
+      | none => .err "record not found"
+      | some d => .ok d :=
+  get_after_run ops c segs docs h hf id
+
+/-- a newly created collection satisfies the invariant and holds no document -/
+theorem new_collection_is_empty (name : Bytes) (opts : Cfg) (hq : Supported opts.quant)
+    (hm : opts.metric = 0 ∨ opts.metric = 1) (hlen : (encodeOpts name opts).length < 1000000000) :
+    ∃ c segs, newCollection none name opts .createIfNotExists = .ok c ∧ c.cfg = opts ∧ CRep c segs (fun _ => none) :=
+  new_collection_rep name opts hq hm hlen
+
+/-- distinct ids are stored under distinct record ids, none of them the header's -/
+theorem record_ids_distinct (a b : Nat) : (ridOf a = ridOf b → a = b) ∧ ridOf a ≠ [] :=
+  ⟨ridOf_inj, ridOf_ne_nil a⟩
 
 /-- non-vacuity: a concrete write fits a new file, so `FitsAll` is satisfiable from the initial state -/
 example : NewOK 1 [49] [{ id := 0, data := [123, 125] }, { id := 1, data := [0, 0, 128, 63] }] := by
